@@ -1,16 +1,22 @@
 """C11 -- TLS interception issues a valid per-host certificate and never trusts a bad upstream
 (cfgmc: every point of the configuration lattice run live with real TLS on both sides)."""
 import itertools
-from .. import common, cfgmc, pki
+from .. import common, cfgmc, pki, c11point
 
 PROP = 'C11'
-PAYLOADS = ['get', 'chunked', 'two']
+PAYLOADS = ['get', 'chunked', 'two', 'big']
 PACKINGS = ['whole', 'split_header', 'split_body']
 EXPECT = {
     'get': [('GET', '/a?x=1', '')],
     'chunked': [('POST', '/p', 'abcde')],
     'two': [('GET', '/one', ''), ('POST', '/two', 'body')],
+    # 600 kB in each direction through the intercepted session (TLS record layer on both sides)
+    'big': [('GET', '/big', ''), ('POST', '/up', c11point.digest(c11point.big_body()).decode())],
 }
+
+
+def want_bodies(want):
+    return [c11point.digest(c11point.big_body()).decode() if w[1] == '/big' else 'origin|%s|%s|%s' % w for w in want]
 
 
 def points(tier):
@@ -20,7 +26,7 @@ def points(tier):
             ('origin.test', '127.0.0.1', '[::1]'), ('trusted', 'selfsigned', 'wrongname', 'expired'),
             (False, True), (False, 'only', 'first', 'last', 'bystander_only'), ('cold', 'warm')):
         if tier == 'quick':
-            combos = [(PAYLOADS[i % 3], PACKINGS[(i // 3) % 3])]
+            combos = [(PAYLOADS[i % 4], PACKINGS[(i // 4) % 3])]
         else:
             combos = list(itertools.product(PAYLOADS, PACKINGS))
         i += 1
@@ -53,7 +59,7 @@ def judge(pt, r):
             if hs_ok:
                 if c.get('peer_cert_der') != r['origin_cert_der']:
                     v.append(('opted_out_connection_was_intercepted', where))
-                if c.get('response_bodies') != ['origin|%s|%s|%s' % w for w in want]:
+                if c.get('response_bodies') != want_bodies(want):
                     v.append(('tunnelled_exchange_not_intact', where))
             elif not bad_cert:
                 v.append(('opted_out_tunnel_to_good_origin_failed', where))
@@ -68,7 +74,7 @@ def judge(pt, r):
             continue
         if c.get('peer_cert_der') == r['origin_cert_der']:
             v.append(('client_was_shown_the_origin_certificate', where))
-        if c.get('response_bodies') != ['origin|%s|%s|%s' % w for w in want]:
+        if c.get('response_bodies') != want_bodies(want):
             v.append(('response_not_intact', where))
     if not pt['optout'] and bad_cert and not pt['insecure']:
         if origin_reqs or origin_plain:
@@ -92,12 +98,13 @@ def run(tier):
     n = 0
     herr = 0
     seen = set()
-    for pt, r in cfgmc.run_points('mc.c11point', pts, timeout=120):
+    cstats = {}
+    for pt, r, verdicts in cfgmc.run_judged('mc.c11point', pts, judge, timeout=300, stats=cstats):
         n += 1
         if n % 31 == 1:
             rep.sample({'point': pt, 'connections': [{k: v for k, v in c.items() if k != 'peer_cert_der'} for c in r.get('connections', [])],
                         'origin': r.get('origin')})
-        for sym, detail in judge(pt, r):
+        for sym, detail in verdicts:
             if sym == 'harness_error':
                 herr += 1
             hk = 'name' if pt['host'] == 'origin.test' else ('ipv4' if pt['host'] == '127.0.0.1' else 'ipv6')
@@ -107,10 +114,12 @@ def run(tier):
                 continue
             seen.add(k)
             rep.violation(feats, {'point': pt, 'detail': detail})
+    rep.add(points_rerun_for_confirmation=cstats.get('points_rerun_for_confirmation', 0),
+            points_not_reproduced=cstats.get('points_not_reproduced', 0))
     rep.add(states=n, transitions=n * 2, traces_validated_against_impl=n, live_runs=n, harness_errors=herr,
             rule='CONNECT host {DNS name, IPv4 literal, IPv6 literal} x origin certificate {trusted, self-signed, wrong name, '
                  'expired} x --insecure-tls-interception x plugin list {none, opt-out only, opt-out then bystander, bystander then opt-out, bystander only} x certificate cache {cold, warm} = 240 points; '
-                 'thorough additionally x inner payload {GET, chunked POST, two requests} x inner packing {whole, split in header, '
+                 'thorough additionally x inner payload {GET, chunked POST, two requests, 600 kB down + 600 kB up} x inner packing {whole, split in header, '
                  'split in body}; quick rotates payload/packing over the 240 points')
     rep.assumptions.append('handshakes are blocking calls inside the SUT: configurations and inputs are enumerated, '
                            'interleavings inside the handshakes are not')
